@@ -23,7 +23,10 @@ import (
 	"github.com/facebookincubator/tacquito/cmds/server/config"
 )
 
-type tqvResp struct{ status tq.AuthorStatus; n int }
+type tqvResp struct {
+	status tq.AuthorStatus
+	n      int
+}
 
 func (r *tqvResp) Reply(v tq.EncoderDecoder) (int, error) {
 	r.n++
@@ -169,8 +172,8 @@ func TestTqvWitness(t *testing.T) {
 		}
 	}
 	out := map[string]interface{}{
-		"obligation": "cmds/server/config/authorizers/stringy.CommandBasedAuthorizer.evaluate/bounded.first-rule",
-		"scenario":   "exhaustive small scope: rule lists (user <= 2, group <= 1) from 24 templates x 15 requests, end to end through Authorizer.New / Handle",
+		"obligation":  "cmds/server/config/authorizers/stringy.CommandBasedAuthorizer.evaluate/bounded.first-rule",
+		"scenario":    "exhaustive small scope: rule lists (user <= 2, group <= 1) from 24 templates x 15 requests, end to end through Authorizer.New / Handle",
 		"evaluations": n, "mismatches": bad, "violated": len(bad) > 0 || n < 200000,
 	}
 	b, _ := json.Marshal(out)
